@@ -116,6 +116,12 @@ class Checker:
         """a violation located in a file in which (or below which, on the call stack) the engine
         met a construct it cannot model is not a verdict: it becomes 'not decided'"""
         import sa.interp as _ip
+        if getattr(self, "blanket", None):
+            for o in self.obligations:
+                if o["status"] == "violation":
+                    o["status"] = "undecided"
+                    o["detail"] = f"NOT DECIDED - {self.blanket}; derived: {o['detail']}"
+            return
         entries = []
         seen = set()
         for q, what, loc, files in _ip.OPAQUE:
@@ -142,7 +148,8 @@ class Checker:
             # silent pass.  With nothing analysed at all the run is broken (exit 2); otherwise the
             # shortfall is stated as an undecided obligation (the code was restructured beyond what
             # the rule recognises - or the analysis is blind there)
-            if not any(o["status"] == "ok" and o["nontrivial"] for o in self.obligations):
+            if not any(o["status"] == "ok" and o["nontrivial"] for o in self.obligations) \
+                    and not getattr(self, "blanket", None):
                 from .model import AnalysisError
                 raise AnalysisError("; ".join(self.floor_misses))
             for m in self.floor_misses:
